@@ -55,6 +55,7 @@ func newVFSched(w *vfWorld, points []string, probePoints []string) *vfSched {
 		s.probePts[p] = true
 	}
 	verifPointFn = s.point
+	w.sched = s
 	return s
 }
 
